@@ -184,7 +184,8 @@ class C30(Prop):
         inputs, job = [], {}
         for nm in names:
             typ = rng.choice(["string", "string", "string", "int", "boolean", "string?", "int?", "string[]", "string[]",
-                              "int[]", "float", "double", "float", "float?", "float[]", "double[]"])
+                              "int[]", "float", "double", "float", "float?", "float[]", "double[]",
+                              "boolean[]", "string?[]", "int?[]"])
             if kind == "item":
                 typ = rng.choice(["string", "string[]", "int", "string"])
             arr = typ.endswith("[]")
@@ -214,12 +215,12 @@ class C30(Prop):
             for b in args + [i["bind"] for i in inputs if i["bind"]]:
                 if b["quote"] is False:
                     b["quote"] = None
-        # a valueFrom that evaluates to an EMPTY array is kept out: cwltool then emits the bare prefix, StreamFlow
-        # (and the CWL text: "empty arrays add nothing") nothing -- see design/notes/C30.md
-        for b in args + [i["bind"] for i in inputs if i["bind"]]:
+        # a valueFrom that evaluates to an EMPTY array: cwltool emits the bare prefix, StreamFlow nothing (known class
+        # empty-valuefrom-prefix); kept out of the item-binding cases only, where the order differences would blur it
+        for b in (args + [i["bind"] for i in inputs if i["bind"]]) if kind == "item" else []:
             if b["vf"] and b["vf"][0] == "in" and job.get(b["vf"][1]) == []:
                 job[b["vf"][1]] = [self._value(rng, next(i["type"] for i in inputs if i["name"] == b["vf"][1])[:-2])]
-        for i in inputs:
+        for i in inputs if kind == "item" else []:
             if i["bind"] and i["bind"]["vf"] and i["bind"]["vf"][0] == "self" and job.get(i["name"]) == []:
                 job[i["name"]] = [self._value(rng, i["type"][:-2])]
         for a in args:
@@ -269,6 +270,8 @@ class C30(Prop):
         ins = {}
         for i in c["inputs"]:
             t = i["type"]
+            if t.endswith("?[]"):            # an array whose items may be null
+                t = {"type": "array", "items": ["null", t[:-3]]}
             if i["item"] is not None:
                 t = {"type": "array", "items": t[:-2], "inputBinding": self._cwl_binding(i["item"])}
             ins[i["name"]] = {"type": t}
